@@ -291,3 +291,115 @@ Theorem C20_pipeline_init_is_bay_instance :
 Proof. exact BayBreakdownProofs.init_canon. Qed.
 Print Assumptions C20_pipeline_init_is_bay_instance.
 (* ==== end of block (the breakdown pipeline is an instance of the bay model) ==== *)
+
+(* ==== sort.c from source (unit sortc) ==== *)
+(* src/emu/sort.c is regenerated into Gen/SortC_gen.v on every run (unit sortc; prelude Emu/SortCPre.v: the two int64_t arrays
+   as lists with trapping out-of-bounds accesses, the three loops of sort_replace as bounded iterations around the
+   translated condition / step / body, qsort(cmp_int64) = isort, chan_read / chan_set on the outputs).
+   C20_sort_replace_from_source: for EVERY array, old and new the generated sort_replace computes the model's
+   sort_replace: the same array, die() exactly for old = new, a trap exactly where the model says the C reads outside
+   the array (n/2 jump, both directions, the n = 0 case included); the iteration bound is never exhausted.  Hence
+   C20_replace / C20_replace_jump_harmless / C20_replace_die are theorems about the generated code
+   (C20_sort_replace_generated_correct).
+   C20_sort_module_from_source: on a C state that represents a module state m (arrays, copied, outputs), the generated
+   sort_cb_input does what input_changed m i v does: same refusal (index outside the inputs, sort_replace leaving its
+   domain), same new values / sorted / copied / outputs, and chan_set is called on exactly the rows of `ws`, in that
+   order, with those values (C20_module, C20_module_writes, C20_writes_exact are about these). *)
+From OV Require Emu.SortCPre Gen.SortC_gen Proofs.SortCProofs.
+
+Theorem C20_sort_replace_from_source : forall sx st old new,
+  SortC_gen.sort_replace (Some SortCPre.ASorted) (Z.of_nat (length (SortCPre.ss_sorted st))) old new sx st =
+  match sort_replace (SortCPre.ss_sorted st) old new with
+  | SR_ok a' => EmuCoreDefs.Ok (tt, SortCPre.with_sorted st a')
+  | SR_die => EmuCoreDefs.Err SortCPre.E_DIE
+  | SR_oob => EmuCoreDefs.Err SortCPre.E_TRAP
+  end.
+Proof. exact SortCProofs.sort_replace_from_source. Qed.
+Print Assumptions C20_sort_replace_from_source.
+
+Theorem C20_sort_replace_generated_correct : forall sx st old new,
+  Sorted Z.le (SortCPre.ss_sorted st) -> In old (SortCPre.ss_sorted st) -> old <> new ->
+  exists a', SortC_gen.sort_replace (Some SortCPre.ASorted) (Z.of_nat (length (SortCPre.ss_sorted st))) old new sx st =
+               EmuCoreDefs.Ok (tt, SortCPre.with_sorted st a') /\
+             Sorted Z.le a' /\ Permutation a' (new :: remove_one old (SortCPre.ss_sorted st)).
+Proof. exact SortCProofs.sort_replace_generated_correct. Qed.
+Print Assumptions C20_sort_replace_generated_correct.
+
+Theorem C20_sort_module_from_source : forall v alloc st m i, SortCProofs.rep st m -> SortCProofs.sized m ->
+  match input_changed m i v with
+  | M_ok m' ws =>
+    exists st', SortC_gen.sort_cb_input (Some SortCPre.CIn) (Some (inl (Z.of_nat i)))
+                  {| SortCPre.sn_in := v; SortCPre.sn_alloc_ok := alloc |} st = EmuCoreDefs.Ok (tt, st') /\
+                SortCProofs.rep st' m' /\ SortCPre.ss_writes st' = SortCPre.ss_writes st ++ ws /\
+                SortCPre.ss_pend st' = SortCPre.ss_pend st /\ SortCPre.ss_regs st' = SortCPre.ss_regs st
+  | M_err => exists e, SortC_gen.sort_cb_input (Some SortCPre.CIn) (Some (inl (Z.of_nat i)))
+                         {| SortCPre.sn_in := v; SortCPre.sn_alloc_ok := alloc |} st = EmuCoreDefs.Err e
+  end.
+Proof. exact SortCProofs.sort_cb_input_from_source. Qed.
+Print Assumptions C20_sort_module_from_source.
+
+Theorem C20_sortc_constants :
+  SortC_gen.c_VALUE_INT64 = 1 /\ SortC_gen.c_CHAN_SINGLE = 0 /\ SortC_gen.c_CHAN_DIRTY_WRITE = SortCPre.P_DIRTY_WRITE /\
+  SortC_gen.c_CHAN_ALLOW_DUP = SortCPre.P_ALLOW_DUP.
+Proof. exact SortCProofs.constants. Qed.
+Print Assumptions C20_sortc_constants.
+
+(* the generated code on concrete inputs *)
+Example C20_ex_sortc_replace :
+  SortC_gen.sort_replace (Some SortCPre.ASorted) 5 3 8 (SortCProofs.ex_env VNull) (SortCProofs.ex_state (9 :: 1 :: 5 :: 3 :: 7 :: nil)) =
+  EmuCoreDefs.Ok (tt, SortCPre.with_sorted (SortCProofs.ex_state (9 :: 1 :: 5 :: 3 :: 7 :: nil)) (1 :: 5 :: 7 :: 8 :: 9 :: nil)).
+Proof. vm_compute. reflexivity. Qed.
+Example C20_ex_sortc_cb_input :
+  match SortC_gen.sort_cb_input (Some SortCPre.CIn) (Some (inl 3)) (SortCProofs.ex_env (VInt 8)) (SortCProofs.ex_state (9 :: 1 :: 5 :: 3 :: 7 :: nil)) with
+  | EmuCoreDefs.Ok (_, st) => SortCPre.ss_sorted st = (1 :: 5 :: 7 :: 8 :: 9 :: nil) /\
+                              SortCPre.ss_writes st = ((1%nat, 5) :: (2%nat, 7) :: (3%nat, 8) :: nil)
+  | EmuCoreDefs.Err _ => False
+  end.
+Proof. vm_compute. split; reflexivity. Qed.
+(* sort_init(n = 3): zeroed arrays, three null outputs registered in order with DIRTY_WRITE and ALLOW_DUP *)
+Example C20_ex_sortc_init :
+  match SortCProofs.ex_init 3 with
+  | EmuCoreDefs.Ok st => SortCPre.ss_values st = (0 :: 0 :: 0 :: nil) /\ SortCPre.ss_sorted st = (0 :: 0 :: 0 :: nil) /\ SortCPre.ss_copied st = 0 /\
+                         SortCPre.ss_outs st = (VNull :: VNull :: VNull :: nil) /\
+                         SortCPre.ss_regs st = ((0, (true, true)) :: (1, (true, true)) :: (2, (true, true)) :: nil)
+  | EmuCoreDefs.Err _ => False
+  end.
+Proof. vm_compute. repeat split. Qed.
+(* ==== end of block (unit sortc) ==== *)
+
+(* ==== breakdown wiring from source (unit connect) ==== *)
+(* The six-channel callback placement of the per-CPU breakdown pipeline (BayBreakdownDefs.bd_dcbs / bd_mux0 / bd_mux1, which
+   C20_pipeline_is_bay_instance takes as given) is generated too: create_cpu and connect_cpu of src/emu/nosv/breakdown.c are
+   regenerated into Gen/Connect_gen.v on every run (unit connect; mux_init / mux_set_input / mux_add_reselect /
+   mux_set_default are primitives with the meaning BayDefs gives them; select_tr / select_idle enter as the custom select
+   functions BayBreakdownDefs.g_tr / g_idle with ST_TASK_BODY / ST_PROGRESSING probed from the source).
+   ConnectProofs.connect_all_bd runs, after the whole connect-time wiring of the system from the empty bay (unit connect:
+   system channels, all models in slot order), for every physical CPU: the generated create_cpu (tr, tri), the generated
+   connect_cpu, then sort_set_input on tri (sort.c's bay_add_cb of sort_cb_input, rendered as BayBreakdownDefs does: an
+   always-enabled callback copying tri into a sink; the calling loops of model_nosv_breakdown_create / _connect, sort_init
+   and the PRV registration of the sorted rows are not translated).  ConnectProofs.bd_project picks, out of the bay that
+   was built, the CPU's subsystem / task type / idle track outputs, tr, tri and the sink, and its three muxes, and renames
+   them 0..5 / 0..2 (refusing if any callback on those channels belongs to another mux).
+   C20_breakdown_wiring_from_source_partial: for 2 threads, 2 physical CPUs (+ the virtual one) and the model sets
+   {ovni, nOS-V} and all models, the projection IS BayBreakdownDefs.bd_bay (repaired code: fx = true) in its initial state
+   bd_init: mux0 on the subsystem with inputs subsystem / task type, default ST_UNKNOWN_SS, cb_select first and cb_reselect
+   on the task type; mux1 on idle with inputs tr / idle; the sort callback on tri; all six channels DIRTY_WRITE + ALLOW_DUP.
+   PARTIAL: by computation for this family (same style as C06_wiring_from_source_partial); nanos6/breakdown.c has the same
+   connect_cpu and is not translated; the PRV emit callbacks of the three CPU channels are not part of the pipeline model. *)
+From OV Require Emu.BayDefs Emu.BayBreakdownDefs Emu.ConnectPre Gen.Connect_gen Proofs.ConnectProofs.
+
+Theorem C20_breakdown_wiring_from_source_partial : forall en c, In en ConnectProofs.bd_models -> In c (0 :: 1 :: nil)%nat ->
+  match ConnectProofs.connect_all_bd (ConnectProofs.bd_fam_sx en) with
+  | EmuCoreDefs.Ok st => ConnectProofs.bd_project (ConnectProofs.bd_fam_sx en) st c
+  | EmuCoreDefs.Err _ => None
+  end = Some (BayBreakdownDefs.bd_bay true Connect_gen.c_ST_TASK_BODY Connect_gen.c_ST_UNKNOWN_SS Connect_gen.c_ST_PROGRESSING BayBreakdownDefs.bd_init).
+Proof. exact ConnectProofs.breakdown_wiring_from_source. Qed.
+Print Assumptions C20_breakdown_wiring_from_source_partial.
+
+(* the constants are those C20_wiring etc. are instantiated with for nOS-V (11 2 100) *)
+Theorem C20_breakdown_constants :
+  Connect_gen.c_ST_TASK_BODY = 11 /\ Connect_gen.c_ST_UNKNOWN_SS = 2 /\ Connect_gen.c_ST_PROGRESSING = 100 /\
+  Connect_gen.c_CH_SUBSYSTEM = 4 /\ Connect_gen.c_CH_TYPE = 2 /\ Connect_gen.c_CH_IDLE = 6.
+Proof. exact ConnectProofs.bd_constants. Qed.
+Print Assumptions C20_breakdown_constants.
+(* ==== end of block (unit connect) ==== *)
